@@ -1519,10 +1519,144 @@ func c19CrossAlias(t *testing.T, v *verifOut) {
 	}
 }
 
+// ---------------------------------------------------------------------------------------------
+// Repeated-signer id sweep: for ids at word-size and byte boundaries, a signer that occurs twice
+// among the inputs of Combine is refused (never a list with a repeated signer), for every scheme.
+
+func c19KeyFor(t *testing.T, scheme string) hotstuff.PrivateKey {
+	switch scheme {
+	case NameECDSA:
+		k, err := ecdsa.GenerateKey(elliptic.P256(), crand.Reader)
+		if err != nil {
+			t.Fatal(err)
+		}
+		return k
+	case NameEDDSA:
+		_, k, err := ed25519.GenerateKey(crand.Reader)
+		if err != nil {
+			t.Fatal(err)
+		}
+		return k
+	}
+	k, err := GenerateBLS12PrivateKey()
+	if err != nil {
+		t.Fatal(err)
+	}
+	return k
+}
+
+func c19RepeatSweep(t *testing.T, v *verifOut) {
+	sweep := []uint64{1, 7, 8, 9, 31, 32, 33, 63, 64, 65, 127, 128, 129, 255, 256, 257, 300, 1 << 16, 1 << 31, 1<<32 - 1}
+	msg := []byte("verif C19 sweep")
+	for _, scheme := range []string{NameECDSA, NameEDDSA, NameBLS12} {
+		var sM, sB *verifStream
+		if scheme == NameBLS12 {
+			sB = v.Stream("bls_sweep", "b_mismatches", 12)
+		} else {
+			sM = v.Stream("multi_sweep_"+scheme, "m_mismatches", 200)
+		}
+		for _, x := range sweep {
+			if scheme == NameBLS12 && x > 1<<16 {
+				// a BLS signature by replica 2^31 carries a 256 MB participant field: not built
+				v.Count("bls12_sweep_id_too_large_skipped")
+				continue
+			}
+			id := hotstuff.ID(x)
+			others := []hotstuff.ID{id + 1, id + 2}
+			if x >= 1<<32-2 {
+				others = []hotstuff.ID{id - 1, id - 2}
+			}
+			// a world with real keys for {id, other, other2}
+			ids := []hotstuff.ID{id, others[0], others[1]}
+			keys := map[hotstuff.ID]hotstuff.PrivateKey{}
+			for _, r := range ids {
+				keys[r] = c19KeyFor(t, scheme)
+			}
+			bases := map[hotstuff.ID]Base{}
+			for _, r := range ids {
+				cfg := core.NewRuntimeConfig(r, keys[r])
+				for _, q := range ids {
+					cfg.AddReplica(&hotstuff.ReplicaInfo{ID: q, PubKey: keys[q].Public()})
+				}
+				b, err := New(cfg, scheme)
+				if err != nil {
+					t.Fatal(err)
+				}
+				bases[r] = b
+			}
+			sign := func(r hotstuff.ID, tag string) c19Arg {
+				q, err := bases[r].Sign(msg)
+				if err != nil {
+					t.Fatal(err)
+				}
+				return c19Arg{name: fmt.Sprintf("sign(%d)%s", r, tag), sig: q, signers: c19ForEach(q.Participants())}
+			}
+			a1, a2 := sign(id, ""), sign(id, "'") // two different signatures by the same replica
+			o1, o2 := sign(others[0], ""), sign(others[1], "")
+			caseNo := 0
+			emit := func(args []c19Arg) (int, hotstuff.QuorumSignature) {
+				caseNo++
+				res, out := c19CombineChecked(v, scheme, bases[ids[caseNo%3]], args)
+				v.Count(scheme + "_sweep_" + c19ResNames[res])
+				meta := map[string]any{"scheme": scheme, "stream": "repeated-signer-sweep", "id": x, "args": c19ArgNames(args), "result": c19ResNames[res]}
+				v.Seen(fmt.Sprintf("%s|sweep|%d|%s", scheme, x, strings.Join(c19ArgNames(args), ",")), true, meta)
+				if scheme == NameBLS12 {
+					resTerm := c19ResNames[res]
+					if res == c19Ok {
+						c19SetOracle(v, scheme, out.Participants(), args)
+						bf := out.(*BLS12AggregateSignature).Bitfield()
+						resTerm = fmt.Sprintf("(COk (%s, %s, %s))", c19Bytes(bf.Bytes()), gNat(bf.Len()), c19IDs(c19ForEach(&bf)))
+					}
+					ts := make([]string, len(args))
+					for i, a := range args {
+						ts[i] = "(Some " + c19Bytes(a.sig.(*BLS12AggregateSignature).Bitfield().Bytes()) + ")"
+					}
+					v.Case(sB, fmt.Sprintf("(%s, %s)", gList(ts), resTerm), meta)
+					return res, out
+				}
+				resTerm, probes, rk, l, k := c19ResNames[res], "[]", "[]", 0, caseNo%4
+				if res == c19Ok {
+					set := out.Participants()
+					c19SetOracle(v, scheme, set, args)
+					got := c19ForEach(set)
+					sort.Slice(got, func(i, j int) bool { return got[i] < got[j] })
+					resTerm, l = "(COk "+c19IDs(got)+")", set.Len()
+					ps := []string{}
+					for _, p := range []hotstuff.ID{id, id - 1, others[0], others[1], id + 64, 1, 64} {
+						ps = append(ps, fmt.Sprintf("(%s, %s)", gN(uint64(p)), gBool(set.Contains(p))))
+					}
+					probes, rk = gList(ps), c19IDs(c19RangeCount(set, k))
+				}
+				v.Case(sM, fmt.Sprintf("(%s, %s, %s, %s, (%s, %s))", c19MargTerm(args), resTerm, gNat(l), probes, gNat(k), rk), meta)
+				return res, out
+			}
+			_, agg := emit([]c19Arg{a1, o1}) // an aggregate containing id
+			emit([]c19Arg{o1, a1})
+			emit([]c19Arg{a1, o1, a1}) // the same value again
+			emit([]c19Arg{a1, o1, a2}) // another signature by the same replica
+			emit([]c19Arg{a1, a1})
+			emit([]c19Arg{a1, a2})
+			emit([]c19Arg{o1, a1, a2})
+			emit([]c19Arg{o1, o2, a1, a2})
+			emit([]c19Arg{a1, o1, o2, a2})
+			emit([]c19Arg{a1, o1, o2})
+			if agg != nil {
+				ag := c19Arg{name: fmt.Sprintf("combine(sign(%d),sign(%d))", id, others[0]), sig: agg, signers: c19ForEach(agg.Participants())}
+				emit([]c19Arg{ag, a1})
+				emit([]c19Arg{ag, a2})
+				emit([]c19Arg{a2, ag})
+				emit([]c19Arg{ag, o2, a2})
+				emit([]c19Arg{ag, o2})
+			}
+		}
+	}
+}
+
 func TestVerifC19(t *testing.T) {
 	v := verifNew("C19")
 	c19Bitfield(v)
 	c19Schemes(t, v)
 	c19CrossAlias(t, v)
+	c19RepeatSweep(t, v)
 	v.Close("one evaluation = one operation sequence on a live Bitfield (or one BitfieldFromBytes, or one Sign/Combine call with real keys); non-trivial = at least two insertions / a non-zero byte string of length >= 1 / a Combine with >= 2 arguments")
 }
